@@ -64,6 +64,7 @@ CATALOGUE = {
   (MSGS, "        return bytearray(self.bytes())", "        return bytearray(self.bytes()[:3])", C),
   (MSGS, "        return bytearray(self.bytes())", "        return bytearray(encode_message(self.__dict__))", S),
   (DEC, "msg['channel'] = status_byte & 0x0f", "msg['channel'] = status_byte & 0x07", C),
+  (MSGS, "            text = text.replace(sep, ' ' * len(sep))", "            text = re.sub(r'\\s', ' ', text).replace(sep, ' ' * len(sep))", C),   # D21 again
  ],
  'C02': [
   (DEC, "    elif len(data) != spec['length'] - 1:", "    elif len(data) < spec['length'] - 1:", C),
@@ -76,6 +77,9 @@ CATALOGUE = {
   (DEC, "    if len(msg_bytes) == 0:\n        raise ValueError('message is 0 bytes long')\n", "", C),
   (CHK, "    elif not 0 <= value <= 127:\n        raise ValueError('data byte must be in range 0..127')",
         "    elif not 0 <= value <= 255:\n        raise ValueError('data byte must be in range 0..127')", C),
+  (DEC, "    if check and not isinstance(status_byte, Integral):", "    if False:", C),   # D22 again
+  (DEC, "        if check and not isinstance(end, Integral):", "        if False:", C),
+  (DEC, "    msg_bytes = list(msg_bytes)\n", "", C),   # D23 again
  ],
  'C03': [
   (MSGS, "            check_value(name, value)\n            if name == 'data':\n                vars(self)['data'] = SysexData(value)\n            else:\n                vars(self)[name] = value",
@@ -92,6 +96,9 @@ CATALOGUE = {
         "            m = Message.from_bytes(midi_bytes); vars(m)['time'] = None\n            self.messages.append(m)", C),
   (MSGS, "    def __delattr__(self, name):\n        raise AttributeError('attribute cannot be deleted')",
          "    def __delattr__(self, name):\n        if name == 'type':\n            raise AttributeError('attribute cannot be deleted')\n        object.__delattr__(self, name)", C),
+  (MSGS, "            overrides['data'] = SysexData(overrides['data'])", "            overrides['data'] = bytearray(overrides['data'])", C),   # D26 again
+  (MSGS, "                value = SysexData(value)\n            check_value(name, value)\n            vars(self)[name] = value",
+         "                check_value(name, value)\n                value = SysexData(value)\n            else:\n                check_value(name, value)\n            vars(self)[name] = value", C),   # D25 again
  ],
  'C04': [
   (TOK, "            if byte <= 127:", "            if byte <= 128:", C),
@@ -121,6 +128,7 @@ CATALOGUE = {
         "        if not 0 <= byte <= 255:\n            raise ValueError(f'invalid byte value {byte!r}')\n        handler = self._feed_data_byte if byte <= 127 else self._feed_status_byte\n        return handler(byte)", S),
   (PAR, "        for msg in self:\n            return msg\n        else:\n            return None", "        if not self.messages:\n            return None\n        return self.messages.popleft()", S),
   (PAR, "        for msg in self:\n            return msg\n        else:\n            return None", "        if len(self.messages) > 1:\n            return self.messages.popleft()\n        return None", C),
+  (PQ, "            yield self.get()", "            return self.get()", C),   # D27 again
  ],
  'C06': [
   (TOK, "            if self._status != SYSEX_START:\n                # Realtime messages are only allowed inside sysex\n                # messages. Reset parser.\n                self._status = 0",
@@ -144,6 +152,7 @@ CATALOGUE = {
   (META, "        return UnknownMetaMessage(meta_type, data, time=delta)", "        return UnknownMetaMessage(meta_type, data)", C),
   (SPECS, "REALTIME_TYPES = {'clock', 'start', 'continue', 'stop',\n                  'active_sensing', 'reset'}", "REALTIME_TYPES = {'clock', 'start', 'continue', 'stop',\n                  'active_sensing'}", C),
   (MF, "        if self.type == 0 and len(self.tracks) != 1:", "        if self.type == 0 and len(self.tracks) > 1:", C),
+  (MF, "    for msg in fix_end_of_track(_checked_times(track)):", "    for msg in fix_end_of_track(track):", C),   # D28 again
  ],
  'C08': [
   (META, "        bytes.append(value & 0x7f)\n        value >>= 7", "        bytes.append(value & 0xff)\n        value >>= 8", C),
@@ -209,6 +218,8 @@ CATALOGUE = {
   (PORTS, "                                            block=False))", "                                            block=block))", C),
   (PORTS, "            except (OSError, ValueError):", "            except OSError:", C),
   (PORTS, "            if not self.closed and not getattr(self, '_closing', False):", "            if not self.closed:", C),   # D20 again
+  (PORTS, "    def __iter__(self):\n        # Iteration ends when the input port closes", "    def _iter_unused(self):\n        # Iteration ends when the input port closes", C),   # D30 again
+  (PORTS, "            for message in port.iter_pending():\n                if yield_ports:", "            for message in (port.iter_pending() if not port.closed else ()):\n                if yield_ports:", C),   # D31 again
  ],
  'C12': [
   (TRK, "    messages.sort(key=lambda msg: msg.time)", "    messages.sort(key=lambda msg: msg.time, reverse=True)", C),
@@ -241,6 +252,7 @@ CATALOGUE = {
   (STRS, "        name, value = arg.split('=', 1)", "        name, value = arg.split('=')", S),
   (MSGS, "        line_number += 1", "            line_number += 1", C),
   (STRS, "        words.append('time={}'.format(msg['time']))", "        words.append('time={:d}'.format(msg['time']))", C),
+  (MSGS, "        check_msgdict(msgdict)\n        return cl(**msgdict)", "        return cl(**msgdict)", C),   # D24 again
  ],
  'C15': [
   (FRZ, "    elif isinstance(msg, UnknownMetaMessage):\n        class_ = FrozenUnknownMetaMessage\n    elif isinstance(msg, MetaMessage):\n        class_ = FrozenMetaMessage",
@@ -277,6 +289,7 @@ CATALOGUE = {
   (SOCK, "    return f'{host}:{portno:d}'", "    return f'{host}{portno:d}'", C),
   (SOCK, "        for file in [self._rfile, self._wfile]:", "        for file in [self._rfile]:", C),
   (SOCK, "        return MultiPort._receive(self)", "        return MultiPort._receive(self, block)", S),
+  (SOCK, "                if err.errno in _DISCONNECT_ERRNOS:", "                if False:", C),   # D35 again
  ],
  'C19': [
   (SYX, "    messages = [m for m in messages if m.type == 'sysex']", "    messages = list(messages)", C),
@@ -284,6 +297,7 @@ CATALOGUE = {
   (SYX, "    if data[0] == 240:", "    if data[0] == 0xf7:", C),
   (SYX, "    if len(data) == 0:\n        # Empty file.\n        return []", "", C),
   (SYX, "                outfile.write(message.hex())\n                outfile.write('\\n')", "                outfile.write(message.hex())", S),
+  (SYX, "    if data[0] >= 0x80:", "    if data[0] == 240:", C),   # D33 again
  ],
  'C20': [
   (BK, "        if name is None:\n            name = self._env('MIDO_DEFAULT_INPUT')\n\n        return self.module.Input", "        name = self._env('MIDO_DEFAULT_INPUT') or name\n\n        return self.module.Input", C),
@@ -294,6 +308,7 @@ CATALOGUE = {
   (BK, "names = [device['name'] for device in devices if device['is_output']]", "names = [device['name'] for device in devices if device['is_input']]", C),
   (BK, "        if self.api and 'api' not in kwargs:", "        if self.api:", C),
   (INIT, "        if name.split('_')[0] in ['open', 'get']:", "        if name.split('_')[0] in ['open']:", C),
+  (BK, "        if self.name and '/' in self.name:\n            self.name, name_api = self.name.split('/', 1)", "        if not api and self.name and '/' in self.name:\n            self.name, name_api = self.name.split('/', 1)", C),   # D34 again
  ],
 }
 
